@@ -64,6 +64,8 @@ def chunks(tier, seed):
         out.append({"kind": "lat3", "n": n_lat, "key": "lat3-%d" % k})
     for k in range(NSAMP):
         out.append({"kind": "real", "n": n_real, "key": "real-%d" % k})
+    for k in range(6 if tier == "quick" else 16):
+        out.append({"kind": "scale", "n": 2 if tier == "quick" else 3, "key": "scale-%d" % k, "idx": k})
     return out
 
 
@@ -151,6 +153,29 @@ def cases(chunk):
             elif r < 0.4:       # one track is a re-timed copy of the other
                 b = [list(a[min(n1 - 1, (j * n1) // n2)]) for j in range(n2)]
             yield {"kind": kind, "a": a, "b": b, "dim": rng.choice([1, 2, 3]), "idx": i}
+    elif kind == "scale":
+        # larger scale: tracks of hundreds / thousands of observations (a walk and a noisy, differently sampled
+        # copy of it, or two unrelated walks)
+        for i in range(chunk["n"]):
+            n1, n2 = rng.choice([(600, 600), (1500, 40), (6000, 3), (400, 700), (900, 300), (40, 1500), (300, 310)])
+            def walk(n):
+                x, y, th = 0.0, 0.0, rng.uniform(0, 6.28)
+                out = []
+                for _ in range(n):
+                    out.append([round(x, 3), round(y, 3), round(rng.uniform(0, 5), 3)])
+                    th += rng.uniform(-0.5, 0.5)
+                    st = rng.uniform(0.2, 3.0)
+                    x += st * math.cos(th)
+                    y += st * math.sin(th)
+                return out
+            a = walk(n1)
+            if rng.random() < 0.5:
+                b = [[a[min(n1 - 1, (j * n1) // n2)][0] + rng.uniform(-2, 2), a[min(n1 - 1, (j * n1) // n2)][1] + rng.uniform(-2, 2),
+                      rng.uniform(0, 5)] for j in range(n2)]
+            else:
+                b = walk(n2)
+            yield {"kind": "scale", "a": a, "b": b, "dim": rng.choice([2, 2, 3]), "idx": chunk["idx"] * 10 + i,
+                   "p": rng.choice([1, 2, 2, "inf"])}
     else:
         raise M.HarnessError("unknown chunk kind %r" % kind)
 
@@ -220,8 +245,52 @@ def setup(ctx):
     import tracklib.algo.comparison  # noqa: F401  (fail early if the import breaks)
 
 
-def _pval(p):
+def _pval(p, key=None):
+    """The exponent as the API takes it; with a key, in one of the other numeric types a caller may hold it in."""
+    if key is not None:
+        import numpy as np
+        k = key % 6
+        if p == "inf":
+            return np.float64("inf") if k == 1 else float("inf")
+        if k == 1:
+            return np.int64(p)
+        if k == 2:
+            return float(p)
+        if k == 3:
+            return np.float64(p)
+        if k == 4:
+            return np.int32(p)
     return float("inf") if p == "inf" else p
+
+
+def run_scale(case, ctx):
+    """Larger pairs: exact DTW and the fast variant in both orders for one exponent, against the recursion oracle."""
+    from tracklib.algo import comparison as C
+    a, b, dim, p = case["a"], case["b"], case["dim"], case["p"]
+    n1, n2 = len(a), len(b)
+    ta = gen.make_track([tuple(q) for q in a])
+    tb = gen.make_track([tuple(q) for q in b])
+    A = list(zip(ta.getX(), ta.getY(), ta.getZ()))
+    B = list(zip(tb.getX(), tb.getY(), tb.getZ()))
+    D = [[_dist(A[i], B[j], dim) for j in range(n2)] for i in range(n1)]
+    Dt = [[D[i][j] for i in range(n1)] for j in range(n2)]
+    sig = ("scale", n1, n2, dim, p, tuple(a[0]), tuple(b[-1]))
+    cls = ["dim%d" % dim, "scale", "tracks_of_hundreds_of_observations", "p_" + str(p)]
+    opt = dp_optimum(D, p)
+    pv = _pval(p)
+    for label, x, y, mode, DD, m1, m2 in (("match(DTW)", ta, tb, C.MODE_MATCHING_DTW, D, n1, n2),
+                                          ("match(FDTW)", ta, tb, C.MODE_MATCHING_FDTW, D, n1, n2),
+                                          ("match(FDTW) with the tracks swapped", tb, ta, C.MODE_MATCHING_FDTW, Dt, n2, n1)):
+        r = M.call(C.match, x, y, mode, pv, dim, False)
+        if "FDTW" in label:
+            ctx.monitor("fdtw.equals_dtw")
+        w, _ = _check_matching(label, r, DD, p, opt, ctx, m1, m2)
+        if w:
+            w = dict(w)
+            w.pop("pairs", None)
+            w.update({"sizes": [n1, n2], "dim": dim, "p": p, "case_is_replayable_from": "replay file (tracks too long to print)"})
+            return violated(w, sig, True, cls)
+    return held(sig, True, cls)
 
 
 def _read_match(res, n1):
@@ -306,6 +375,8 @@ def _tie_stats(T, cpl):
 
 
 def run_case(case, ctx):
+    if case.get("kind") == "scale":
+        return run_scale(case, ctx)
     from tracklib.algo import comparison as C
     a, b, dim = case["a"], case["b"], case["dim"]
     n1, n2 = len(a), len(b)
@@ -356,7 +427,9 @@ def run_case(case, ctx):
             if not M.feq(e, opt, 1e-12, 1e-13):
                 raise M.HarnessError("oracle disagreement: recursion %r, enumeration %r" % (opt, e))
             opt = e
-        pv = _pval(p)
+        pv = _pval(p, case.get("idx", 0) + (0 if p == 1 else 1 if p == 2 else 2))
+        if type(pv).__module__ == "numpy":
+            cls.add("exponent_given_as_numpy_scalar")
         # --- DTW, track1 -> track2 (with diagnostics capture)
         sink = []
         with M.capture_locals([C._dtw.__code__], ["T", "M"], sink):
@@ -504,7 +577,8 @@ def classify(case, witness):
 
 # floors for the call-history workloads added in session 3 (a run in which they were silently skipped is inconclusive)
 _floors_base = floors
-_FLOORS_EXTRA = {'classes': {'edited_in_place_history': 10000, 'rematch_history': 10000, 'plot_option': 300, 'after_requests_that_failed': 5000}}
+_FLOORS_EXTRA = {'classes': {'edited_in_place_history': 10000, 'rematch_history': 10000, 'plot_option': 300, 'after_requests_that_failed': 5000,
+                             'exponent_given_as_numpy_scalar': 5000, 'tracks_of_hundreds_of_observations': 10}}
 
 
 def floors(tier):
